@@ -205,6 +205,23 @@ func c05(r *rand.Rand, tier string, tr *trace.Buf, extra map[string]interface{})
 				})
 			}
 		}
+		if cnt(7) < omega {
+			for row := 0; row < 8; row++ {
+				lo, hi := cnt(row-1), cnt(row)
+				if hi == lo {
+					continue
+				}
+				p := lo + r.Intn(hi-lo)
+				row := row
+				emitHint("hint-duplicate-inserted", func(b []byte) { // same vector: b[p] listed twice, everything after shifted, counts of rows >= row incremented
+					total := cnt(7)
+					copy(b[p+1:total+1], append([]byte{}, b[p:total]...))
+					for i := row; i < 8; i++ {
+						b[omega+i]++
+					}
+				})
+			}
+		}
 		last := cnt(7)
 		for _, p := range []int{last, (last + omega) / 2, omega - 1} {
 			if p >= last && p < omega {
@@ -238,20 +255,21 @@ func c05(r *rand.Rand, tier string, tr *trace.Buf, extra map[string]interface{})
 			mask int
 		}{
 			{"skip-z-test", dilithium.VerifSkipZ | dilithium.VerifWantZFail},
+			{"skip-z-test-edge", dilithium.VerifSkipZ | dilithium.VerifWantZFail | dilithium.VerifWantZEdge},
 			{"skip-w0-test", dilithium.VerifSkipW0 | dilithium.VerifWantW0Fail},
 			{"skip-ct0-test", dilithium.VerifSkipCt0 | dilithium.VerifWantC0Fail},
 			{"skip-nothing", 0},
 		} {
 			maxIter := 400
-			if sc.name == "skip-ct0-test" {
-				maxIter = 3000
+			if sc.name == "skip-ct0-test" || sc.name == "skip-z-test-edge" {
+				maxIter = 4000
 			}
 			sig, it, mz, mw, mc, hints, ok := dilithium.VerifSignSkipping(msg, &sk, sc.mask, maxIter)
 			if !ok {
 				continue
 			}
 			got[sc.name]++
-			e := check(sc.name, msg, sig, &pk, sc.name == "skip-z-test", sc.name == "skip-nothing")
+			e := check(sc.name, msg, sig, &pk, sc.name == "skip-z-test" || sc.name == "skip-z-test-edge", sc.name == "skip-nothing")
 			e.Ev = "skipcase"
 			e.Iter, e.MaxW0, e.MaxCt0, e.Hints = it, int(mw), int(mc), int(hints)
 			if int(mz) != e.MaxZ {
